@@ -435,7 +435,7 @@ def r6_rejection(ctx):
         "verde.base.utils.check_coordinates": [("coordinate-shapes", lambda c: _mentions_attr(c, "shape") or _mentions_call(c, "builtins.all"))],
         "verde.base.utils.check_data_names": [("names-none", lambda c: _is_none_test(c, "data_names")), ("names-count", _is_len_ne)],
         "verde.base.utils.check_extra_coords_names": [("names-none", lambda c: _is_none_test(c, "extra_coords_names")), ("names-count", _is_len_ne)],
-        "verde.utils.get_ndim_horizontal_coords": [("ndim-mismatch", lambda c: _mentions_call(c, "numpy.ndim"))],
+        "verde.utils.get_ndim_horizontal_coords": [("ndim-mismatch", lambda c: _mentions_call(c, "numpy.ndim") or _mentions_attr(c, "ndim"))],
     }
     for qn, sites in want.items():
         paths = ctx.paths(qn)
